@@ -370,6 +370,7 @@ end operator
 inductive ShiftErr
   | notMultiple     -- range shifted by a non-multiple of the cell side
   | notContained    -- the smaller grid does not lie inside the larger one
+  | shiftedUnchanged  -- the grids differ in an axis of unchanged length
   deriving DecidableEq, Repr
 
 /-- Signed number of cells by which the LARGER grid starts to the left of the smaller one. -/
@@ -377,10 +378,11 @@ def shiftCells (dom ran : Axis Rat) : Rat :=
   (if ran.n > dom.n then 1 else -1) * (dom.gridMin - ran.gridMin) / dom.cell
 
 /-- Array offset of one axis from the two partitions: `shiftCells` must be an integer in
-`[0, |n_ran - n_dom|]` (the smaller grid lies inside the larger one).  Axes of unchanged length
-get offset 0. -/
+`[0, |n_ran - n_dom|]` (the smaller grid lies inside the larger one).  In an axis of unchanged
+length the two grids must coincide; the offset is 0. -/
 def offsetFromAxes (dom ran : Axis Rat) : Except ShiftErr Nat :=
-  if dom.n = ran.n then .ok 0
+  if dom.n = ran.n then
+    (if dom.gridMin = ran.gridMin then .ok 0 else .error .shiftedUnchanged)
   else if (shiftCells dom ran).den ≠ 1 then .error .notMultiple
   else if (shiftCells dom ran).num < 0 ∨
       (shiftCells dom ran).num > ((ran.n : Int) - dom.n).natAbs then .error .notContained
